@@ -2,6 +2,7 @@ package codecgen
 
 import (
 	"bytes"
+	"fmt"
 	"io"
 	"reflect"
 
@@ -11,6 +12,7 @@ import (
 	common2 "github.com/elastos/Elastos.ELA/core/types/common"
 	"github.com/elastos/Elastos.ELA/core/types/interfaces"
 	"github.com/elastos/Elastos.ELA/core/types/payload"
+	"github.com/elastos/Elastos.ELA/dpos/dtime"
 	dmsg "github.com/elastos/Elastos.ELA/dpos/p2p/msg"
 	"github.com/elastos/Elastos.ELA/elanet/bloom"
 	"github.com/elastos/Elastos.ELA/p2p"
@@ -288,6 +290,32 @@ func Decoders() []Decoder {
 	ds = append(ds, plain(416, "dpos/msg.SidechainIllegalData.Deserialize", func() serializable { return &dmsg.SidechainIllegalData{} }, nil))
 	ds = append(ds, plain(417, "dpos/msg.Proposal.Deserialize", func() serializable { return &dmsg.Proposal{} }, nil))
 	ds = append(ds, plain(418, "dpos/msg.Vote.Deserialize", func() serializable { return &dmsg.Vote{} }, nil))
+	ds = append(ds, plain(306, "msg.FilterLoad.Deserialize", func() serializable { return &msg.FilterLoad{} },
+		func(rng *lib.Rng, o serializable) { o.(*msg.FilterLoad).HashFuncs = uint32(rng.Intn(51)) }))
+	ds = append(ds, plain(400, "dpos/msg.ConsensusStatus.Deserialize", func() serializable { return &dmsg.ConsensusStatus{} }, nil))
+	ds = append(ds, plain(421, "dpos/msg.ResponseConsensus.Deserialize", func() serializable { return &dmsg.ResponseConsensus{} }, nil))
+	ds = append(ds, dposVersion(419, 0), dposVersion(420, 1))
+	ds = append(ds, plain(12, "types.DPOSHeader.Deserialize", func() serializable { return &types.DPOSHeader{} }, nil))
+	ds = append(ds, plain(23, "common.Uint168.Deserialize", func() serializable { return &elacommon.Uint168{} }, nil))
+	ds = append(ds, plain(24, "common.Fixed64.Deserialize", func() serializable { return new(elacommon.Fixed64) }, nil))
+	ds = append(ds, plain(25, "common.Uint160.Deserialize", func() serializable { return &elacommon.Uint160{} }, nil))
+	ds = append(ds, plain(36, "common.OutPoint.Deserialize", func() serializable { return &common2.OutPoint{} }, nil))
+	ds = append(ds, plain(37, "common.UTXO.Deserialize", func() serializable { return &common2.UTXO{} }, nil))
+	ds = append(ds, plain(38, "common.OutputInfo.Deserialize", func() serializable { return &common2.OutputInfo{} }, nil))
+	ds = append(ds, plain(40, "payload.NFTInfo.Deserialize", func() serializable { return &payload.NFTInfo{} }, nil))
+	ds = append(ds, Decoder{ID: 39, Name: "payload.CRCProposalInfo.Deserialize",
+		Decode: func(r io.Reader) (Reenc, error) {
+			p := &payload.CRCProposalInfo{}
+			if err := p.Deserialize(r, 0); err != nil {
+				return nil, err
+			}
+			return func(w io.Writer) error { return p.Serialize(w, 0) }, nil
+		},
+		Seed: func(rng *lib.Rng) []byte {
+			p := &payload.CRCProposalInfo{}
+			Fill(rng, reflect.ValueOf(p).Elem(), 0)
+			return ser(func(w io.Writer) error { return p.Serialize(w, 0) })
+		}})
 	for i := range ds {
 		switch ds[i].ID {
 		case 300, 313, 314:
@@ -355,4 +383,29 @@ func primitiveDecoders() []Decoder {
 				return ser(func(w io.Writer) error { return elacommon.WriteVarString(w, string(b)) })
 			}},
 	}
+}
+
+// dposVersion registers dpos msg.Version under one value of the process-global
+// payload version (set before every decode / re-serialization).
+func dposVersion(id int, pv uint32) Decoder {
+	return Decoder{ID: id, Name: fmt.Sprintf("dpos/msg.Version.Deserialize(payload version %d)", pv),
+		Decode: func(r io.Reader) (Reenc, error) {
+			dmsg.SetPayloadVersion(pv)
+			m := &dmsg.Version{}
+			if err := m.Deserialize(r); err != nil {
+				return nil, err
+			}
+			return func(w io.Writer) error { dmsg.SetPayloadVersion(pv); return m.Serialize(w) }, nil
+		},
+		Seed: func(rng *lib.Rng) []byte {
+			dmsg.SetPayloadVersion(pv)
+			m := &dmsg.Version{}
+			Fill(rng, reflect.ValueOf(m).Elem(), 0)
+			ts := int64(rng.U64()>>uint(1+rng.Intn(40))) / 1000000 * 1000000
+			if rng.Chance(25) {
+				ts = -ts
+			}
+			m.Timestamp = dtime.Int64ToTime(ts)
+			return ser(m.Serialize)
+		}}
 }
